@@ -9,7 +9,7 @@ import (
 )
 
 func init() {
-	register(ruleDef{ID: "R11.1", Prop: "C11", Tier: "quick", Floor: 5,
+	register(ruleDef{ID: "R11.1", Prop: "C11", Tier: "quick", Floor: 3,
 		Title: "covering lock for label-index read-modify-write: a function that reads a body's index and stores it back holds, from the read to the write, the index shard mutex selected by that same body label",
 		Fn:    ruleR11_1})
 	register(ruleDef{ID: "R11.2", Prop: "C11", Tier: "quick", Floor: 12,
